@@ -128,6 +128,7 @@ pub fn draw_store_fault_profile(allow_faults: bool) -> &'static str {
                 c.fail_before_pm = 40;
                 c.fail_after_pm = 40;
                 c.delay_pm = 20;
+                c.body_break_pm = 15;
                 c.fault_budget = budget;
             });
             "store-faults"
